@@ -204,6 +204,8 @@ def gen_case(rng, focus="c13"):
         k = rng.randint(0, min(3, len(pool)))
         sel = sorted(set(rng.sample(pool, k)))
         opts["selection"] = [rng.choice(["ids", "jobs"]), sel]
+    if isinstance(opts["exclude"], list) and focus in ("c15", "c13") and rng.random() < 0.5:
+        opts["exclude_as"] = rng.choice(["iter", "tuple"])
     if focus == "c15":
         opts["dry_run"] = rng.random() < 0.45
         opts["deep"] = rng.random() < 0.4
@@ -459,6 +461,8 @@ def _run_cli(case, sroot, droot):
     return out.getvalue()
 
 
+SPELLING_FAILS = []     # accepted spellings whose result differs from the list spelling's (oracle messages)
+SPELLING_REFUSED = []   # exclude spellings the real code refused (TypeError, nothing written) in the current case
 LAST_ASKED = []   # file names the file strategy of the last parallel real call was consulted about
 
 
@@ -508,6 +512,10 @@ def real_options(opts):
         kw["doc_sync"] = S.DocSync.COPY
     if opts.get("exclude") is not None:
         kw["exclude"] = copy.deepcopy(opts["exclude"])
+        if isinstance(kw["exclude"], list) and opts.get("exclude_as") == "iter":
+            kw["exclude"] = iter(kw["exclude"])        # a one-shot iterable of patterns
+        elif isinstance(kw["exclude"], list) and opts.get("exclude_as") == "tuple":
+            kw["exclude"] = tuple(kw["exclude"])
     if opts["recursive"]:
         kw["recursive"] = True
     if opts["dry_run"]:
@@ -515,6 +523,40 @@ def real_options(opts):
     if opts["deep"]:
         kw["deep"] = True
     return kw
+
+
+def _spelling_trial(case, sroot, droot):
+    """The exclude patterns are documented as a str (a list is what the code handles).  Another container of
+    the same patterns - a tuple, a one-shot iterator - is either refused (an exception; what is written before
+    it is not judged, the type is not documented) or accepted, and then it must mean the same as the list:
+    both spellings are run on identical scratch copies of the two projects and must end in the same outcome
+    and the same destination tree.  The case itself then continues with the list spelling."""
+    import shutil
+    import tempfile
+
+    base = tempfile.mkdtemp(prefix="spell", dir=os.path.dirname(os.path.abspath(droot)))
+    try:
+        out = {}
+        for tag, spelling in (("as", case["opts"]["exclude_as"]), ("list", None)):
+            c = copy.deepcopy(case)
+            c["opts"]["exclude_as"] = spelling
+            s2, d2 = os.path.join(base, tag + "s"), os.path.join(base, tag + "d")
+            copy_tree_exact(sroot, s2)
+            copy_tree_exact(droot, d2)
+            k, pl, _ = _run_real_inner(c, s2, d2)
+            out[tag] = (k, pl, strip_times(snapshot(d2)), strip_times(snapshot(s2)))
+            if tag == "as" and k == "TypeError":
+                SPELLING_REFUSED.append(spelling)
+                return
+        a, b = out["as"], out["list"]
+        if a[0] != b[0] or a[2] != b[2] or a[3] != b[3]:
+            diff = sorted(k for k in set(a[2]) | set(b[2]) if a[2].get(k) != b[2].get(k))
+            SPELLING_FAILS.append(
+                "exclude=%r passed as %s is accepted but does not mean what the list means: outcome %s vs %s, "
+                "destination paths that differ: %s" % (case["opts"]["exclude"], case["opts"]["exclude_as"],
+                                                      outcome_text(a[0], a[1]), outcome_text(b[0], b[1]), diff[:6]))
+    finally:
+        shutil.rmtree(base, ignore_errors=True)
 
 
 def run_real(case, sroot, droot):
@@ -525,6 +567,10 @@ def run_real(case, sroot, droot):
         sys.setswitchinterval(1e-6)   # switch threads as often as possible: widens every race window
     try:
         with contextlib.redirect_stdout(io.StringIO()):
+            if case["opts"].get("exclude_as") and isinstance(case["opts"].get("exclude"), list):
+                _spelling_trial(case, sroot, droot)
+                case = copy.deepcopy(case)
+                case["opts"]["exclude_as"] = None
             return _run_real_inner(case, sroot, droot)
     finally:
         sys.setswitchinterval(old_si)
@@ -885,6 +931,8 @@ def observe(case, ctx, second_run=True, twin_opts=None):
     quiet_logging()
     o = Obs()
     o.case = case
+    del SPELLING_REFUSED[:]
+    del SPELLING_FAILS[:]
     sd, dd = ctx.fresh_dir("s"), ctx.fresh_dir("d")
     dirs = [sd, dd]
     try:
@@ -1279,6 +1327,7 @@ def _dst_only_keys(s, d0, d1, where, path, nested=True):
 # ----------------------------------------------------------------------------
 def result(o, fails, model, impl):
     case, opts = o.case, o.case["opts"]
+    fails = list(fails) + [(m, None) for m in dict.fromkeys(SPELLING_FAILS)]
     tags = ["entry=" + (case["entry"] if not case.get("via_cli") else "signac-sync-command-line"), "outcome=" + o.kind1, "strategy=%s" % opts["strategy"],
             "doc_sync=" + opts["doc_sync"], "recursive=%s" % opts["recursive"],
             "exclude=%s" % (opts["exclude"] is not None), "selection=%s" % (opts["selection"] is not None),
@@ -1286,6 +1335,8 @@ def result(o, fails, model, impl):
             "njobs=%d/%d" % (len(case["src"]["jobs"]), len(case["dst"]["jobs"]))]
     feats = features(o)
     tags += ["feature=" + f for f in feats]
+    if opts.get("exclude_as") and isinstance(opts.get("exclude"), list):
+        tags.append("exclude-spelling=%s:%s" % (opts["exclude_as"], "refused" if SPELLING_REFUSED else "accepted"))
     pairs = job_pairs(case, o.s0, o.d0)
     nontrivial = bool(pairs) or (case["entry"] in ("Project.sync", "sync_projects")
                                  and doc_of(o.s0, FN_PDOC) != doc_of(o.d0, FN_PDOC))
